@@ -1976,7 +1976,7 @@ func (s *SweepingProvider) individualProvide(prefix bitstr.Key, keys []mh.Multih
 			// Put the key back in the provide queue.
 			s.failedProvide(prefix, keys, fmt.Errorf("individual provide failed for prefix '%s', %w", prefix, err))
 		}
-		if reprovide && err == nil {
+		if reprovide && err == nil && len(coveredPrefix) >= len(prefix) {
 			prefix = coveredPrefix
 		}
 		provideErr = err
